@@ -290,6 +290,12 @@ func Gen(o Options) *Program {
 	if !o.NoServices && simrt.Flip("prog.service-diamond", 0.4) {
 		p.addServiceDiamond(o)
 	}
+	if o.Consts && o.ConstRefs && simrt.Flip("prog.shared-list-const", 0.25) {
+		p.addSharedListConst()
+	}
+	if o.Consts && o.ConstRefs && simrt.Flip("prog.const-triangle", 0.4) {
+		p.addConstTriangle()
+	}
 	if o.StructConsts && simrt.Flip("prog.enum-struct-const", 0.5) {
 		p.addEnumStructConst(o)
 	}
@@ -503,6 +509,78 @@ func (p *Program) addServiceDiamond(o Options) {
 	par := mk(t.b, "Parent", nil)
 	mk(t.b, "Achild", &Ref{par.File, par.Name})
 	mk(t.f, "Sibling", &Ref{par.File, par.Name})
+}
+
+// addSharedListConst: one list constant that several constants and defaults refer to under
+// element types to which its values cast differently (ints as ints, doubles, booleans).
+func (p *Program) addSharedListConst() {
+	f := p.Files[ch("slc.file", len(p.Files))]
+	base := p.add(f, &Def{Kind: KConst, Name: p.name("Cl"), Type: &TypeRef{Base: "list", Elem: &TypeRef{Base: "i32"}},
+		Value: &ConstVal{Kind: CList, Items: []*ConstVal{{Kind: CInt, Int: int64(ch("slc.a", 2))}, {Kind: CInt, Int: int64(ch("slc.b", 2))}}}})
+	ref := func() *ConstVal { return &ConstVal{Kind: CRef, Ref: &Ref{base.File, base.Name}} }
+	elems := []string{"i32", "double", "bool", "i64", "i16"}
+	n := 2 + ch("slc.users", 3)
+	for i := 0; i < n; i++ {
+		et := elems[ch("slc.elem", len(elems))]
+		t := &TypeRef{Base: "list", Elem: &TypeRef{Base: et}}
+		if simrt.Flip("slc.as-default", 0.3) {
+			p.add(f, &Def{Kind: KStruct, Name: p.name("S"), Fields: []*FieldDef{{ID: 1, Name: "xs", Req: ReqOptional, Type: t, Default: ref()}}})
+		} else {
+			p.add(f, &Def{Kind: KConst, Name: p.name("Cu"), Type: t, Value: ref()})
+		}
+	}
+}
+
+// addConstTriangle: a includes x and y, x includes y; y declares an enum (or a typedef of a
+// scalar) and a constant of exactly that type; x - not the root - initialises a constant, a
+// default and a list element of that very type from y's constant.
+func (p *Program) addConstTriangle() {
+	type tri struct{ a, y, x int }
+	var tris []tri
+	for _, fa := range p.Files {
+		for _, y := range fa.Includes {
+			for _, x := range fa.Includes {
+				if x != y && y != fa.Index && x != fa.Index && contains(p.Files[x].Includes, y) {
+					tris = append(tris, tri{fa.Index, y, x})
+				}
+			}
+		}
+	}
+	if len(tris) == 0 {
+		return
+	}
+	t := tris[ch("ctri.pick", len(tris))]
+	fy, fx := p.Files[t.y], p.Files[t.x]
+	var typ *TypeRef
+	var val *ConstVal
+	if ch("ctri.kind", 2) == 0 {
+		e := p.add(fy, &Def{Kind: KEnum, Name: p.name("Ec")})
+		for i := 0; i < 3; i++ {
+			e.Items = append(e.Items, EnumItem{Name: fmt.Sprintf("%s_K%d", strings.ToUpper(e.Name), i), Value: i})
+		}
+		typ = &TypeRef{Ref: &Ref{e.File, e.Name}}
+		val = &ConstVal{Kind: CRef, Ref: &Ref{e.File, e.Name}, Item: e.Items[ch("ctri.item", 3)].Name}
+	} else {
+		td := p.add(fy, &Def{Kind: KTypedef, Name: p.name("Tc"), Type: &TypeRef{Base: []string{"i32", "string", "double"}[ch("ctri.base", 3)]}})
+		typ = &TypeRef{Ref: &Ref{td.File, td.Name}}
+		switch td.Type.Base {
+		case "string":
+			val = &ConstVal{Kind: CString, Str: "tri"}
+		case "double":
+			val = &ConstVal{Kind: CDouble, Dbl: "2.5"}
+		default:
+			val = &ConstVal{Kind: CInt, Int: 42}
+		}
+	}
+	cy := p.add(fy, &Def{Kind: KConst, Name: p.name("Cy"), Type: typ, Value: val})
+	ref := func() *ConstVal { return &ConstVal{Kind: CRef, Ref: &Ref{cy.File, cy.Name}} }
+	p.add(fx, &Def{Kind: KConst, Name: p.name("Cx"), Type: typ, Value: ref()})
+	if simrt.Flip("ctri.default", 0.6) {
+		p.add(fx, &Def{Kind: KStruct, Name: p.name("S"), Fields: []*FieldDef{{ID: 1, Name: "tri", Req: ReqOptional, Type: typ, Default: ref()}}})
+	}
+	if simrt.Flip("ctri.list", 0.5) {
+		p.add(fx, &Def{Kind: KConst, Name: p.name("Cxl"), Type: &TypeRef{Base: "list", Elem: typ}, Value: &ConstVal{Kind: CList, Items: []*ConstVal{ref(), ref()}}})
+	}
 }
 
 // addEnumStructConst adds a struct whose optional fields have enum / typedef
